@@ -31,7 +31,13 @@ ASSUMPTIONS = ["Python integers; Miller-Rabin with 36 bases for primality (proba
                "an identifier of another field size that a selection function accepts silently is outside the "
                "documented domain: recorded in the evidence, not judged",
                "the sparse-form getter is asked after every other accepted field has been installed once, so the "
-               "answer must not depend on the history of the context"]
+               "answer must not depend on the history of the context",
+               "cofactor-clearing maps: ep_mul_cof must return [h]P, or for the BLS families the effective cofactor "
+               "[1-x]P (RFC 9380 8.8.1 h_eff, Piellard 2022/352); ep2_mul_cof is documented as 'the cofactor or a small "
+               "multiple for which a short vector exists': BLS12 must equal [3(x^2-1)*h2]P (Budroni-Pintore, RFC 9380 "
+               "8.8.2 h_eff) with h2 the *model's* twist cofactor, BN must equal the Fuentes-Castaneda et al. polynomial "
+               "x + 3x*psi + x*psi^2 + psi^3 evaluated with a model psi (conjugation times xi-powers, orientation fixed "
+               "by psi(G2) = [p]G2 in the model), other families [h2]P; in all cases [r]*cof(P) = O"]
 
 
 SWEEP = ("asan224", "asan384", "asan521", "asan377", "asan382", "asan446")
@@ -43,7 +49,7 @@ def parts(tier):
         for cfg in SWEEP:
             extra += [dict(part="ep", cfg=cfg, shards=2), dict(part="fp", cfg=cfg, shards=1)]
     return extra + [dict(part="ep", cfg="asan256", shards=6), dict(part="ep", cfg="asan255", shards=2),
-            dict(part="ep", cfg="asan381", shards=4),
+            dict(part="ep", cfg="asan381", shards=5),
             dict(part="fp", cfg="asan256", shards=2), dict(part="fp", cfg="asan255", shards=1),
             dict(part="fp", cfg="asan381", shards=1),
             dict(part="binary", cfg="asan256", shards=2), dict(part="ed", cfg="asan255", shards=1)]
@@ -576,7 +582,7 @@ def measure_tower(R, p):
 
 
 def check_curve(ob, R, X, nm, v, group):
-    """group: 'base' | 'endo' | 'map' | 'pairing' (units are distributed over the shards)"""
+    """group: 'base' | 'endo' | 'map' | 'pairing' | 'cof' (units are distributed over the shards)"""
     ctx, rng, L = ob.ctx, ob.ctx.rng, R.L
     ob.ident = "ep:" + nm
     r0 = R.call("ep_param_set", v)
@@ -752,6 +758,185 @@ def check_curve(ob, R, X, nm, v, group):
 
     if group == "pairing" and pairf:
         check_pairing(ob, R, X, nm, P, E, F, k)
+
+    if group == "cof" and R.has("ep_mul_cof"):
+        check_cofactor_map(ob, R, X, nm, P, E, F)
+
+
+# --------------------------------------------------------------------------------------- cofactor-clearing maps
+def cof_cases(ctx, ident, what, points, expected, call, read, cmp_eq, put_in, put_inf, put_pt, filler, objs, order, curve):
+    """Common driver for ep_mul_cof / ep2_mul_cof.  One journaled case per output mode:
+       sep       - separate output object pre-filled with a different valid point
+       sep-infty - separate output object pre-filled with the point at infinity
+       inplace   - output == input
+    points: [(label, model point or None)], expected(label, P) -> list of acceptable model points (None = infinity).
+    Failure keys: <ident>|<what>|<mode>|value / ep_cmp / subgroup / input-modified / unexpected-error."""
+    pin, pout, pexp = objs
+    for mode in ("sep", "sep-infty", "inplace"):
+        key = "%s|%s|%s" % (ident, what, mode)
+        if not ctx.begin(key, [ident, [lab for lab, _ in points]], budget=600):
+            continue
+        try:
+            for lab, Pt in points:
+                if Pt is None:
+                    put_inf(pin)
+                else:
+                    put_pt(pin, Pt)
+                before = read(pin, raw=True)
+                if mode == "sep":
+                    put_pt(pout, filler)
+                elif mode == "sep-infty":
+                    put_inf(pout)
+                out = pin if mode == "inplace" else pout
+                res = call(out, pin)
+                if res.caught:
+                    ctx.check(False, key + "|unexpected-error", {"point": lab, "err": res.err})
+                    continue
+                got, canon = read(out)
+                exp = expected(lab, Pt)
+                hit = [e for e in exp if curve.eq(got, e)] if got != "invalid" else []
+                ctx.check(bool(hit) and canon, key + "|value",
+                          {"point": lab, "got": repr(got)[:300], "exp": repr(exp[0])[:300], "canonical": canon,
+                           "why": "output left as pre-filled" if (mode != "inplace" and got != "invalid" and
+                                                                   curve.eq(got, filler if mode == "sep" else None)) else None})
+                # the library's own comparison against the model's expectation
+                e0 = hit[0] if hit else exp[0]
+                if e0 is None:
+                    put_inf(pexp)
+                else:
+                    put_pt(pexp, e0)
+                ctx.check(cmp_eq(out, pexp), key + "|ep_cmp", {"point": lab})
+                if got != "invalid":
+                    ctx.check(curve.mul(order, got) is None, key + "|subgroup", {"point": lab, "got": repr(got)[:300]})
+                if mode != "inplace":
+                    ctx.check(read(pin, raw=True) == before, key + "|input-modified", {"point": lab})
+        except MonitorViolation as e:
+            ctx.fail(key + "|" + e.kind, e.detail)
+        except (ArithmeticError, ValueError) as e:
+            ctx.evaluations += 1
+            ctx.fail(key + "|value", {"model-exception": repr(e)})
+        finally:
+            ctx.end()
+
+
+def check_cofactor_map(ob, R, X, nm, P, E, F):
+    ctx, rng = ob.ctx, ob.ctx.rng
+    p, n, h = P["p"], P["n"], P["h"]
+    K = R.K
+    G = (P["gx"], P["gy"])
+    x = bn_of(R, "fp_prime_get_par")
+    bls = [R.E.get(t) for t in ("EP_B12", "EP_B24", "EP_B48") if R.E.get(t)]
+    scalars = [h] + ([1 - x] if P["pairf"] in bls else [])
+    pts = [("generator", G)] + [("random-curve-point-%d" % i, rand_point(E, rng)) for i in range(3)]
+    pts.append(("cofactor-torsion-point", E.mul(n, rand_point(E, rng))))     # O when h = 1
+    pts.append(("infinity", None))
+    cache = {}
+
+    def expected(lab, Pt):
+        if lab not in cache:
+            cache[lab] = [E.mul(c, Pt) for c in scalars]
+        return cache[lab]
+
+    def read(o, raw=False):
+        xx, yy, zz, co, can = R.ep_get(o)
+        if raw:
+            return (xx, yy, zz, co)
+        if zz == 0:
+            return None, can
+        if co == K["BASIC"]:
+            return ((xx, yy) if zz == 1 else "invalid"), can
+        if co == K["PROJC"]:
+            return E.from_homog(xx, yy, zz), can
+        if co == K["JACOB"]:
+            return E.from_jacob(xx, yy, zz), can
+        return "invalid", can
+    objs = (R.ep_new(), R.ep_new(), R.ep_new())
+    for o in objs:
+        R.ep_put(o, G[0], G[1])
+    note(ctx, "cofactor_map", {nm: {"h": hx(h), "accepted_scalars": [hx(c) for c in scalars]}})
+    try:
+        cof_cases(ctx, ob.ident, "cofactor-map", pts, expected,
+                  call=lambda o, i: R.call("ep_mul_cof", o, i), read=read,
+                  cmp_eq=lambda u, v: R.call("ep_cmp", u, v).i == K["RLC_EQ"],
+                  put_in=None, put_inf=lambda o: R.call("ep_set_infty", o),
+                  put_pt=lambda o, Q: R.ep_put(o, Q[0], Q[1]), filler=E.mul(7, G), objs=objs, order=n, curve=E)
+    finally:
+        for o in objs:
+            R.free(o)
+
+
+def put_ep2(R, o, Q):
+    K = R.K
+    R.fpx_put(o + K["off_ep2_st_x"], list(Q[0]))
+    R.fpx_put(o + K["off_ep2_st_y"], list(Q[1]))
+    R.fpx_put(o + K["off_ep2_st_z"], [1, 0])
+    R.wr_int(o + K["off_ep2_st_coord"], K["BASIC"])
+
+
+def check_twist_cofactor_map(ob, R, X, nm, P, E2, F2, xi, G2, fam, x, h2m):
+    """ep2_mul_cof on the sextic twist over Fp2 (embedding degree 12)"""
+    ctx, rng = ob.ctx, ob.ctx.rng
+    p, n = P["p"], P["n"]
+    K = R.K
+
+    def conj(z):
+        return (z[0], (-z[1]) % p)
+    gx_, gy_ = F2.pow(xi, (p - 1) // 3), F2.pow(xi, (p - 1) // 2)
+    igx, igy = F2.inv(gx_), F2.inv(gy_)
+    pG = E2.mul(p % n, G2)
+    psi = None
+    for cx, cy in ((gx_, gy_), (igx, igy)):
+        def cand(Q, cx=cx, cy=cy):
+            return None if Q is None else (F2.mul(cx, conj(Q[0])), F2.mul(cy, conj(Q[1])))
+        if E2.on_curve(cand(G2)) and E2.eq(cand(G2), pG):
+            psi = cand
+    if fam == "BN" and psi is None:
+        raise ArithmeticError("no model Frobenius on the twist satisfies psi(G2) = [p]G2")
+
+    def expected_of(Q):
+        if Q is None:
+            return [None]
+        if fam == "B12":
+            return [E2.mul(3 * (x * x - 1) * h2m, Q), E2.mul(h2m, Q)]
+        if fam == "BN":
+            xP = E2.mul(x, Q)
+            return [E2.add(E2.add(E2.add(psi(psi(psi(Q))), xP), psi(E2.mul(3, xP))), psi(psi(xP))), E2.mul(h2m, Q)]
+        return [E2.mul(h2m, Q)]
+    pts = [("generator", G2)] + [("random-twist-point-%d" % i, rand_point(E2, rng)) for i in range(2)]
+    pts.append(("cofactor-torsion-point", E2.mul(n, rand_point(E2, rng))))
+    pts.append(("infinity", None))
+    cache = {}
+
+    def expected(lab, Pt):
+        if lab not in cache:
+            cache[lab] = expected_of(Pt)
+        return cache[lab]
+    tmp = R.mem(K["sizeof_ep2_st"], R.poison)
+
+    def read(o, raw=False):
+        xx, yy, zz, co, can = read_ep2(R, o)
+        if raw:
+            return (xx, yy, zz, co)
+        if zz == (0, 0):
+            return None, can
+        if zz == (1, 0):
+            return (xx, yy), can
+        # projective output: normalise with the library (only the tag-free affine form is modelled for ep2)
+        R.call("ep2_norm", tmp, o)
+        xx, yy, zz, co, can2 = read_ep2(R, tmp)
+        return ((xx, yy) if zz == (1, 0) else "invalid"), can and can2
+    objs = tuple(R.mem(K["sizeof_ep2_st"], R.poison) for _ in range(3))
+    for o in objs:
+        put_ep2(R, o, G2)
+    try:
+        cof_cases(ctx, ob.ident, "twist-cofactor-map", pts, expected,
+                  call=lambda o, i: R.call("ep2_mul_cof", o, i), read=read,
+                  cmp_eq=lambda u, v: R.call("ep2_cmp", u, v).i == K["RLC_EQ"],
+                  put_in=None, put_inf=lambda o: R.call("ep2_set_infty", o),
+                  put_pt=lambda o, Q: put_ep2(R, o, Q), filler=E2.mul(7, G2), objs=objs, order=n, curve=E2)
+    finally:
+        for o in objs + (tmp,):
+            R.free(o)
 
 
 def check_map(ob, R, X, nm, P, E, F):
@@ -932,6 +1117,16 @@ def check_pairing(ob, R, X, nm, P, E, F, k):
         return qz == (1, 0) and E2.eq((qx, qy), E2.mul(p % n, G2)), {"frb(G2)": [repr(qx), repr(qy)]}
     ob("twist-frobenius-constants", frob, budget=300)
     R.free(g)
+    if R.has("ep2_mul_cof"):
+        # the model's own twist cofactor (the table value is judged above, not trusted here)
+        h2m = None
+        if cands:
+            Qc = rand_point(E2, rng)
+            for N in cands:
+                if N % n == 0 and E2.mul(N, Qc) is None:
+                    h2m = N // n
+        if h2m is not None and E2.on_curve(G2) and E2.mul(n, G2) is None:
+            check_twist_cofactor_map(ob, R, X, nm, P, E2, F2, xi, G2, fam, x, h2m)
     if R.has("ep2_curve_is_ctmap") and L.ep2_curve_is_ctmap() and "off_iso2_st_a" in X:
         iso = ptr_fn(R, "ep2_curve_get_iso")()
         ia = tuple(R.fpx_get(iso + X["off_iso2_st_a"], 2)[0])
@@ -1208,7 +1403,7 @@ def run(ctx, part):
                 ob("installs", lambda: (False, "ep_param_set installed the field of this identifier and then raised an error"))
             unit += 1
         for nm, v in ids:
-            for group in ("base", "endo", "map", "pairing"):
+            for group in ("base", "endo", "map", "pairing", "cof"):
                 if ctx.mine(unit):
                     check_curve(ob, R, X, nm, v, group)
                 unit += 1
